@@ -155,6 +155,8 @@ class Engine:
             return hit
         if self.pos < len(self.prefix):
             d = self.prefix[self.pos]
+            if not isinstance(d, bool):
+                raise Unsupported("replay misalignment: a choice point was recorded where a branch is executed")
             self.trail.append([d, 0, 'b'])      # alternatives of replayed entries were handled by the scheduler
             self.pos += 1
             c = e if d else z3.Not(e)
@@ -184,6 +186,8 @@ class Engine:
             return 0
         if self.pos < len(self.prefix):
             k = self.prefix[self.pos]
+            if isinstance(k, bool) or k >= n:
+                raise Unsupported("replay misalignment: a branch was recorded where a choice point is executed")
             self.trail.append([k, 0, 'c', n])
             self.pos += 1
             return k
